@@ -44,6 +44,13 @@ warnings.filterwarnings("ignore", category=SyntaxWarning)
 os.environ.setdefault("PYTHONWARNINGS", "ignore::SyntaxWarning")
 
 
+# Quick budgets were tuned by the family builders on a heavily loaded machine (load average ~100); on an
+# idle 16-core machine these checks finished in 7-10 s, so their quick case counts are scaled up to use
+# roughly 20-40 s (re-validated over several seeds on the unchanged tree).
+QUICK_SCALE = {"C04": 2, "C06": 2, "C07": 3, "C08": 2, "C10": 3, "C11": 3, "C12": 3, "C14": 2, "C15": 2,
+               "C17": 2, "C18": 2}
+
+
 class InfraError(Exception):
     pass
 
@@ -184,6 +191,8 @@ class Ctx:
         """Case budget of a stream.  Multiplied by `boost` (> 1 only when a source file anchored by
         this property differs from the fingerprinted tree, DESIGN.md 5.6)."""
         n = quick if self.tier == "quick" else thorough
+        if self.tier == "quick":
+            n *= QUICK_SCALE.get(self.pid, 1)
         return int(n * self.boost)
 
     def elapsed(self):
